@@ -1121,8 +1121,8 @@ class PEval:
                 return ("int", 1 if r else 0)
         return None
 
-    def run(self, start=0, env0=None):
-        """Returns (reached_blocks, edges_taken)."""
+    def run(self, start=0, env0=None, stop_blocks=()):
+        """Returns (reached_blocks, edges_taken).  Blocks in stop_blocks are reached but not expanded."""
         body = self.body
         env0 = tuple(sorted((env0 or {}).items()))
         seen = set()
@@ -1146,6 +1146,8 @@ class PEval:
                     env[s["lhs"]["l"]] = ("int", s["rv"]["op"]["k"]["int"])
             t = body.term(b)
             succs = body.succs(b, self.unwind)
+            if b in stop_blocks and b != start:
+                continue
             if t["k"] == "switch":
                 allowed = None
                 v = self._eval_operand(t["op"], env)
